@@ -28,7 +28,10 @@ variable {π : Type} (H : HeapLib (Entry π)) (plt : π → π → Bool)
 
 /-- `PriEntry.__lt__` as generated is the model's `Entry.lt` (as functions) -/
 theorem lt_eq : Gen.priEntryLt plt = Entry.lt plt := by
-  funext a b; simp [Gen.priEntryLt, Entry.lt]
+  funext a b
+  -- robust against rewrites of the boolean expression: decide it on the three atoms it reads
+  unfold Gen.priEntryLt Entry.lt
+  cases plt a.pri b.pri <;> cases plt b.pri a.pri <;> by_cases h : a.seq < b.seq <;> simp [h]
 
 /-- `list.sort()` is the model's stable sort -/
 theorem listSort_eq (lt : Entry π → Entry π → Bool) (l : List (Entry π)) :
@@ -82,7 +85,7 @@ theorem sorted_eq (s : PQ π) : Gen.PQ.sorted H plt s = (.ok (PQ.sort plt (PQ.co
   cases s with | mk seq pq =>
   have : pq.map (fun e => (⟨e.pri, e.seq, e.obj⟩ : Entry π)) = pq := by
     induction pq <;> simp_all
-  simp [Gen.PQ.sorted, sort_eq, PQ.copy, Gen.PQ.init, this]
+  simp [Gen.PQ.sorted, sort_eq, PQ.copy, PQ.sort, Gen.PQ.init, this, lt_eq, listSort_eq]
 
 /-- `pop`: IndexError on an empty heap (state unchanged), else the popped entry's object -/
 theorem pop_eq (s : PQ π) :
@@ -135,13 +138,26 @@ theorem extend_eq (s : PQ π) (es : List (π × Nat)) :
       obtain ⟨p, x⟩ := e
       simp only [forLoop, hf, PQ.appendAll]
       exact ih _ f hf
-  rw [hloop es s _ (by intro it st; simp)]
+  rw [hloop es s _ (by intro it st; simp <;> omega)]
   simp [lt_eq]
 
-/-- closes a branch whose integer conditions contradict each other -/
-macro "arith_absurd" : tactic =>
-  `(tactic| (exfalso; simp only [decide_eq_true_eq, decide_eq_false_iff_not, bne_iff_ne, beq_iff_eq, ne_eq,
-      Bool.not_eq_true, beq_eq_false_iff_ne, Bool.false_eq_true, Bool.true_eq_false, not_false_eq_true] at *; omega))
+/-- decides every `if` whose condition is integer arithmetic over the facts in the context
+    (whatever way the condition is written, whichever branch comes first) -/
+macro "decide_ifs" : tactic =>
+  `(tactic| simp (disch := omega) only [if_pos, if_neg, decide_eq_true_eq, decide_eq_false_iff_not, bne_iff_ne,
+      beq_iff_eq, ne_eq, Bool.not_eq_true', Bool.not_eq_true, Bool.not_eq_false, Bool.not_true, Bool.not_false,
+      Bool.false_eq_true, Bool.true_eq_false, if_true, if_false, not_true_eq_false, not_false_eq_true,
+      Bool.and_true, Bool.true_and, Bool.or_false, Bool.false_or, Bool.and_eq_true, Bool.or_eq_true])
+
+/-- side conditions of `forLoop_find`: the body steps on where the predicate fails and leaves the
+    loop (`break` / `return` / `raise`, whatever follows) where it holds -/
+macro "loop_side" : tactic =>
+  `(tactic| (intro _ _ _
+             first
+               | (simp_all [Ctl.isExit]; done)
+               | (simp_all [Ctl.isExit]; omega)
+               | (try dsimp only at *
+                  (repeat' split) <;> simp_all [Ctl.isExit])))
 
 /-- `find(key, remove)`: `None` when nothing matches; else the (priority, object) of the model's
     entry, and the model's state -/
@@ -149,6 +165,7 @@ theorem find_eq (s : PQ π) (key : Nat → Bool) (rm : Bool) :
     Gen.PQ.find H plt s key rm =
       (.ok ((PQ.find H plt s key rm).1.map (fun e => (e.pri, e.obj))), (PQ.find H plt s key rm).2) := by
   unfold Gen.PQ.find PQ.find PQ.revIndex
+  try dsimp only
   rw [forLoop_find (p := fun it => key it.1.1.obj)]
   · obtain ⟨hs, hn⟩ := find?_revEnum_spec s.pq (fun e => key e.obj)
     simp only [List.length_reverse] at hs hn ⊢
@@ -161,28 +178,25 @@ theorem find_eq (s : PQ π) (key : Nat → Bool) (rm : Bool) :
       · cases hl : s.pq.getLast? with
         | none => simp_all
         | some last =>
+          have hlen : s.pq.dropLast.length = s.pq.length - 1 := by simp
           simp only [listPop, hl, PQ.replaceWithTail, if_true, if_false, Bool.not_true, Bool.not_false,
             Bool.false_eq_true]
           by_cases hj : j = 0
           · -- the tail: `pop()`, sequence reset when that emptied the queue
-            have hj' : (j != 0) = false := by simp [hj]
-            simp only [hj', Bool.false_eq_true, if_false]
             generalize s.pq.dropLast = d
-            split
-            · arith_absurd
-            · cases d <;> simp [PQ.resetIfEmpty]
+            decide_ifs
+            cases d <;> simp [PQ.resetIfEmpty]
           · -- any other index: the tail replaces it, then `heapify`
-            have hj' : (j != 0) = true := by simp [hj]
             have h0 : (0:Int) ≤ ↑s.pq.length - ↑j - 1 := by omega
             have h1 : ((s.pq.length : Int) - ↑j - 1).toNat = s.pq.length - j - 1 := by omega
-            simp only [hj', if_true]
-            split
-            · rw [setItemI_nat _ _ _ h0 (by simp; omega)]
-              simp [h1]
-            · arith_absurd
+            have hset : ∀ v, setItemI s.pq.dropLast (↑s.pq.length - ↑j - 1) v
+                = some (s.pq.dropLast.set (s.pq.length - j - 1) v) := by
+              intro v; rw [setItemI_nat _ _ _ h0 (by omega), h1]
+            decide_ifs
+            simp [hset]
     · simp [hn h, h]
-  · intro it _ hx; first | (simp_all; done) | (simp_all; omega)
-  · intro it _ hx; first | (simp_all [Ctl.isExit]; done) | (simp_all [Ctl.isExit]; omega)
+  · loop_side
+  · loop_side
 
 /-- `remove(obj)`: ValueError (state unchanged) when the object is absent; else the priority of the
     model's removed entry and the model's state.  (For a heap library whose `pop` fails on a
@@ -193,9 +207,11 @@ theorem remove_eq (s : PQ π) (x : Nat) :
       | none => (.error (if PQ.indexOfObj s.pq x = none then .valueError else .indexError), s)
       | some (e, s') => (.ok e.pri, s') := by
   unfold Gen.PQ.remove PQ.remove PQ.indexOfObj
+  try dsimp only
   rw [forLoop_find (p := fun it => it.1.1.obj == x)]
   · obtain ⟨hs, hn⟩ := find?_enum_spec s.pq (fun e => e.obj == x)
-    simp only at hs hn ⊢
+    try simp only at hs hn
+    try simp only
     generalize s.pq.findIdx (fun e => e.obj == x) = j at hs hn ⊢
     by_cases h : j < s.pq.length
     · obtain ⟨e, he, hqe, hf⟩ := hs h
@@ -204,41 +220,30 @@ theorem remove_eq (s : PQ π) (x : Nat) :
       have hlast : s.pq.getLast? = s.pq[s.pq.length - 1]? := List.getLast?_eq_getElem?
       by_cases hj : j = 0
       · -- the head: `heappop`
-        have hj' : (j == 0) = true := by simp [hj]
-        simp only [hj', if_true]
-        split
-        · cases H.pop (Entry.lt plt) s.pq with
-          | none => simp
-          | some r => obtain ⟨e0, l⟩ := r; cases l <;> simp [PQ.resetIfEmpty]
-        · arith_absurd
-      · have hj' : (j == 0) = false := by simp [hj]
-        simp only [hj', Bool.false_eq_true, if_false]
-        split
-        · arith_absurd
-        · by_cases hjl : j = s.pq.length - 1
-          · -- the tail: `pop()`
-            have hjl' : (j == s.pq.length - 1) = true := by simp [hjl]
-            have hl : s.pq.getLast? = some e := by rw [hlast, ← hjl]; exact he
-            simp only [hjl', if_true, listPop, hl]
-            generalize s.pq.dropLast = d
-            split
-            · cases d <;> simp [PQ.resetIfEmpty]
-            · arith_absurd
-          · -- in the middle: the tail replaces it, then `heapify`
-            have hjl' : (j == s.pq.length - 1) = false := by simp [hjl]
-            simp only [hjl', Bool.false_eq_true, if_false, listPop, PQ.replaceWithTail]
-            split
-            · arith_absurd
-            · cases hl : s.pq.getLast? with
-              | none => simp_all
-              | some last =>
-                have : j < s.pq.dropLast.length := by simp; omega
-                simp only [setItem, this, if_true, PQ.resetIfEmpty]
-                generalize H.heapify (Entry.lt plt) _ = d
-                cases d <;> simp
+        decide_ifs
+        cases H.pop (Entry.lt plt) s.pq with
+        | none => simp
+        | some r => obtain ⟨e0, l⟩ := r; cases l <;> simp [PQ.resetIfEmpty]
+      · by_cases hjl : j = s.pq.length - 1
+        · -- the tail: `pop()`
+          have hl : s.pq.getLast? = some e := by rw [hlast, ← hjl]; exact he
+          simp only [listPop, hl]
+          generalize s.pq.dropLast = d
+          decide_ifs
+          cases d <;> simp [PQ.resetIfEmpty]
+        · -- in the middle: the tail replaces it, then `heapify`
+          cases hl : s.pq.getLast? with
+          | none => simp_all
+          | some last =>
+            have hset : ∀ v, setItem s.pq.dropLast j v = some (s.pq.dropLast.set j v) := by
+              intro v; simp only [setItem]; rw [if_pos (by simp; omega)]
+            simp only [listPop, PQ.replaceWithTail, hl, hset, he]
+            generalize H.heapify (Entry.lt plt) _ = d
+            decide_ifs
+            cases d <;> simp [PQ.resetIfEmpty]
     · simp [hn h, h]
-  · intro it _ hx; first | (simp_all; done) | (simp_all; omega)
-  · intro it _ hx; first | (simp_all [Ctl.isExit]; done) | (simp_all [Ctl.isExit]; omega)
+  · loop_side
+  · loop_side
 
 /-- `reschedule(key, new_priority)`: the object found (or `None`) and the model's state — the
     entry is changed in place, at the index it was read from, and keeps its sequence number -/
@@ -246,6 +251,7 @@ theorem reschedule_eq (s : PQ π) (key : Nat → Bool) (np : π) :
     Gen.PQ.reschedule H plt s key np =
       (.ok (PQ.reschedule H plt s key np).1, (PQ.reschedule H plt s key np).2) := by
   unfold Gen.PQ.reschedule PQ.reschedule PQ.revIndex
+  try dsimp only
   rw [forLoop_find (p := fun it => key it.1.obj)]
   · obtain ⟨hs, hn⟩ := find?_rev_spec s.pq (fun e => key e.obj)
     simp only [List.length_reverse] at hs hn ⊢
@@ -308,13 +314,19 @@ theorem fin_eq (s : PQ π) (popped : List (Entry π)) :
     ∃ p', Gen.PQ.ordereditems.fin1 H plt s popped = (.ok (), (⟨s.seq, PQ.restore H plt popped s.pq⟩, p')) := by
   unfold Gen.PQ.ordereditems.fin1 PQ.restore
   simp only [lt_eq]
+  -- the push-back loop, wherever it stands among the branches
+  rw [pushLoop_eq H plt popped 0 s _ (by intro it st; simp)]
   by_cases h1 : popped.length ≥ s.pq.length
-  · exact ⟨popped ++ s.pq, by simp [h1]⟩
+  · refine ⟨popped ++ s.pq, ?_⟩
+    try decide_ifs
+    try simp
   · by_cases h2 : popped.length ≥ s.pq.length / 2
-    · exact ⟨H.heapify (Entry.lt plt) (popped ++ s.pq), by simp [h1, h2]⟩
+    · refine ⟨H.heapify (Entry.lt plt) (popped ++ s.pq), ?_⟩
+      try decide_ifs
+      try simp
     · refine ⟨popped, ?_⟩
-      rw [pushLoop_eq H plt popped 0 s _ (by intro it st; simp)]
-      simp [h1, h2]
+      try decide_ifs
+      try simp
 
 /-- `ordereditems` in model terms, written by hand: what one trip round the `while` loop does.
     `.next`: the heap ran empty (the `finally:` block is still to run); `.ret`: closed at a
